@@ -9,6 +9,7 @@ import (
 	"path/filepath"
 	"sort"
 	"strings"
+	"sync/atomic"
 	"time"
 
 	badger "github.com/dgraph-io/badger/v4"
@@ -16,7 +17,9 @@ import (
 
 	"verif/h/core"
 	"verif/h/drv"
+	"verif/h/gen"
 	"verif/h/hist"
+	"verif/h/sched"
 )
 
 // dump reads every version of every key plus the visible state, as comparable strings.
@@ -91,7 +94,7 @@ func C07(c *core.Ctx) {
 		"memtable, pending L0 tables and a value-log tail (every third normal-mode history instead ends with a delete-only transaction whose tombstones a compaction had to retain; encrypted histories re-open with a 1 ms data-key rotation period), then 3-5 close/re-open cycles alternating read-write, read-only and changed compaction settings; the full dump " +
 		"(every retained version of every key with value digest/meta/expiry, plus Get and iteration against the model) before Close must equal the dump after Open; around " +
 		"each read-only open + full read session the file tree hash (names, sizes, modes, SHA-256) must be unchanged; thorough tier traces the read-only session with strace " +
-		"and rejects any write-class open/truncate/unlink/rename; distinct = (options, mode, reopen kind sequence) classes")
+		"and rejects any write-class open/truncate/unlink/rename; early-close cases: a prefetching iterator is closed while the multi-MiB value of the item it stands on is still being fetched, the transaction discarded and the database closed at once, then re-opened and read; distinct = (options, mode, reopen kind sequence) classes")
 	work := c.WorkDir()
 	defer os.RemoveAll(work)
 	r := c.Rand("c07")
@@ -238,6 +241,9 @@ func C07(c *core.Ctx) {
 			c.Distinct(fmt.Sprintf("managed=%v|kinds=%s", managed, kinds))
 		})
 	}
+	for i := 0; i < c.Pick(3, 12); i++ {
+		c07EarlyClose(c, work, i)
+	}
 	if c.Thorough() {
 		c07Strace(c, work)
 	}
@@ -246,6 +252,93 @@ func C07(c *core.Ctx) {
 	}
 	c.Sample(map[string]any{"cycle": "dump; Close; Open(kind); dump; compare; model check; (ro: tree hash before/after)"})
 	c.Assume("GC steps run without deletes (known C15 finding); the AllVersions dump is taken with no background compaction between dump and Close")
+}
+
+// c07EarlyClose: a prefetching iterator is closed while it stands on an item whose (large, value-log)
+// value is still being fetched, the transaction is discarded and the database closed at once. Every
+// call must return and the next Open must read the same data.
+func c07EarlyClose(c *core.Ctx, work string, idx int) {
+	dir := filepath.Join(work, fmt.Sprintf("early%d", idx))
+	_ = os.MkdirAll(dir, 0o755)
+	defer os.RemoveAll(dir)
+	o, oname := drvOptions(dir, []int{0, 2, 5}[idx%3])
+	o.ValueLogFileSize = 64 << 20
+	o.ValueLogMaxEntries = 1000
+	o.MemTableSize = 1 << 20
+	db, err := drv.Open(o, false)
+	if err != nil {
+		c.Inconclusive("open: " + err.Error())
+		return
+	}
+	big := gen.Expand(fmt.Sprintf("early%d", idx), (4+idx%5)<<20)
+	_ = db.Update(func(txn *badger.Txn) error { return txn.Set([]byte("a-first"), big) })
+	for i := 0; i < 30; i++ {
+		_ = db.Update(func(txn *badger.Txn) error { return txn.Set([]byte(fmt.Sprintf("b%03d", i)), gen.Expand("s", 100)) })
+	}
+	for round := 0; round < 6; round++ {
+		// the fetch of the current item's value is held at its schedule point until Close has
+		// returned (or 300 ms have passed: an iterator Close that waits for the fetch gets it)
+		var closing atomic.Bool
+		var held atomic.Int64
+		hook := func(name string) {
+			if name != "item.beforeVlogRead" {
+				return
+			}
+			if held.Add(1) != 1 {
+				return // only the fetch of the item the iterator stands on is held
+			}
+			for i := 0; i < 300 && !closing.Load(); i++ {
+				time.Sleep(time.Millisecond)
+			}
+			if closing.Load() {
+				// diagnostic, not a verdict: the fetch was still pending when DB.Close returned
+				c.Count("reopen.value_fetches_still_pending_when_close_returned", 1)
+			}
+		}
+		sched.Install(sched.Config{})
+		sched.PointHook.Store(&hook)
+		txn := db.NewTransaction(false)
+		io := badger.DefaultIteratorOptions
+		io.PrefetchSize = 1 + round%3
+		it := txn.NewIterator(io)
+		it.Rewind() // stands on a-first; its value is being fetched in the background
+		it.Close()
+		txn.Discard()
+		err := db.Close()
+		closing.Store(true)
+		time.Sleep(5 * time.Millisecond) // a fetch that outlived Close runs into the closed database now
+		sched.PointHook.Store(nil)
+		sched.Uninstall()
+		if held.Load() > 0 {
+			c.Count("reopen.value_fetches_held_across_iterator_close", held.Load())
+		}
+		if err != nil {
+			c.Violation("C07|early-close|close-error", err.Error(), oname)
+			return
+		}
+		c.Count("reopen.closes_right_after_an_early_closed_prefetching_iterator", 1)
+		if db, err = drv.Open(o, false); err != nil {
+			c.Violation("C07|early-close|reopen-error", err.Error(), oname)
+			return
+		}
+		err = db.View(func(txn *badger.Txn) error {
+			it, err := txn.Get([]byte("a-first"))
+			if err != nil {
+				return err
+			}
+			v, err := it.ValueCopy(nil)
+			if err == nil && string(v) != string(big) {
+				err = fmt.Errorf("value differs (%d bytes, wrote %d)", len(v), len(big))
+			}
+			return err
+		})
+		if err != nil {
+			c.Violation("C07|early-close|read-after-reopen", err.Error(), oname)
+		}
+	}
+	c.Eval(1)
+	_ = db.Close()
+	c.Distinct("early-close|" + oname)
 }
 
 // c07Strace runs a read-only open + read session in a child under strace and rejects write-class syscalls.
